@@ -64,6 +64,26 @@ static void zoo(rng& g, char const* name, E const& base, bool thorough)
     }
 }
 
+// scripted generator outputs incl. the exact canonical number 0 (and the largest below 1) with leading / trailing disabled channels:
+// the selector must still cost exactly one number
+static void scripted_family(rng& g)
+{
+    std::vector<std::uint64_t> sc;
+    for (int i = 0; i != 97; ++i) { int k = (int) g.below(4); sc.push_back(k == 0 ? 0ULL : (k == 1 ? ~0ULL : g.next())); }
+    script_engine engine(script_registry::add(sc)); // counts its own draws
+    ev("Engine").s("name", "script64").s("T", type_name<T>::get()).i("digits", std::numeric_limits<T>::digits).i("lg", 64).emit();
+    for (int fam = 0; fam != 3; ++fam)
+    {
+        std::vector<T> w = fam == 0 ? std::vector<T>{T(0), T(1), T(0)} : (fam == 1 ? std::vector<T>{T(0), T(0), T(2), T(1)} : std::vector<T>{T(1), T(1), T(0)});
+        call_ctx<T> c;
+        c.cfg.kind = "mc";
+        c.cfg.d = 1 + (std::size_t) fam % 2;
+        c.cfg.densfam = 0;
+        c.plan = make_plan(g);
+        run_mc<T>(c, engine, w, std::vector<std::size_t>{0, 1, 5, 16, 40});
+    }
+}
+
 int main(int argc, char** argv)
 {
     if (argc < 4) return 2;
@@ -72,6 +92,7 @@ int main(int argc, char** argv)
     rng g(std::strtoull(argv[2], nullptr, 10));
     bool thorough = std::atoi(argv[3]) != 0;
     unsigned s = (unsigned) g.below(100000) + 1;
+    scripted_family(g);
     zoo(g, "minstd_rand0", std::minstd_rand0(s), thorough);
     zoo(g, "minstd_rand", std::minstd_rand(s), thorough);
     zoo(g, "mt19937", std::mt19937(s), thorough);
